@@ -203,6 +203,8 @@ def run_case(c):
         elif kind == "hybrid":
             rec = RecordingRandomState(c["seed"])
             init = None if c.get("init") is None else X[c["init"]]
+            if c.get("init_pts") is not None:      # initial centres that are NOT frames of the data (e.g. centroids)
+                init = np.array(c["init_pts"], dtype=X.dtype)
             if c.get("form") == "class":
                 est = KH.KHybrid(metric, n_clusters=c["nclu"], cluster_radius=c["cutoff"],
                                  kmedoids_updates=c["n_iters"], random_state=rec)
